@@ -28,9 +28,7 @@ Theorem transform_render m gs : det m <> qc0 -> forall F g r,
   resolve F (transform_set m gs) (transform_glyph m g) = Some (map (aff_contour m) r).
 Proof.
   intro Hm. induction F as [|F IH]; intros g r Er; [discriminate|].
-  unfold transform_glyph at 1. destruct (is_blank g) eqn:Eb.
-  { unfold is_blank in Eb. destruct (gcontours g) eqn:E1; [|discriminate]. destruct (gcomps g) eqn:E2; [|discriminate].
-    rewrite resolve_S' in Er. rewrite resolve_S'. rewrite E1, E2 in *. cbn in Er |- *. inversion Er; subst. reflexivity. }
+  unfold transform_glyph at 1.
   rewrite resolve_S' in Er. rewrite resolve_S'. cbn [gcomps gcontours].
   destruct (comps_resolve F gs (gcomps g)) as [rc|] eqn:Ec; [|discriminate]. inversion Er; subst r.
   assert (comps_resolve F (transform_set m gs)
@@ -45,6 +43,11 @@ Proof.
       f_equal. rewrite map_app. f_equal. rewrite !map_map. apply map_ext. intro c. apply place_compensated. exact Hm. }
   rewrite map_app. reflexivity.
 Qed.
+
+(* every glyph's advance is scaled -- the empty ones (space) too *)
+Theorem transform_scales_every_advance m gs n g :
+  assoc n gs = Some g -> option_map gwidth (assoc n (transform_set m gs)) = Some (xx m * gwidth g).
+Proof. intro E. rewrite assoc_transform_set, E. reflexivity. Qed.
 
 (* advances are scaled, anchors mapped, names and order kept *)
 Theorem transform_keeps_structure m gs :
